@@ -33,6 +33,9 @@ use serde::{Deserialize, Serialize};
 mod util;
 use util::*;
 
+#[path = "c25_big.rs"]
+mod big;
+
 #[derive(Clone, Debug, Serialize, Deserialize)]
 pub struct SortCase {
     pub sql_case: SqlCase,
@@ -636,7 +639,8 @@ pub fn property() -> Property {
             "sort keys are finite doubles (multiples of 0.25), no NaN/-0.0; strings compare bytewise",
             "the spilled path is reached with ExecutionConfig::with_memory_limit; 'spilled' is measured from the context's MemoryPool::spilled() counter",
             "an engine error is an allowed outcome (labelled), a wrong answer is not",
+            "large_spilled_sort: the table is regenerated from the case parameters (seeded splitmix64), id = input position is unique, so 'a permutation of the input' and 'drawn from the right tie group' are decided per row id; the run layout reported in labels is modelled from spillable.rs generate_runs/merge_runs (per-batch byte estimate, batch i goes to scan partition i % min(rayon threads, batches)) and confirmed only through the total MemoryPool::spilled() byte count; it never decides a verdict",
         ],
-        checks: vec![Box::new(OrderLimit), Box::new(LimitInDerived)],
+        checks: vec![Box::new(OrderLimit), Box::new(LimitInDerived), Box::new(big::LargeSpilledSort)],
     }
 }
